@@ -17,6 +17,7 @@ pub mod c12;
 pub mod c14;
 pub mod c15;
 pub mod c16;
+pub mod c17;
 pub mod c20;
 
 const NEEDS_MIR: [&str; 5] = ["C08", "C11", "C12", "C16", "C20"];
@@ -51,6 +52,7 @@ pub fn dispatch(prop: &str, m: &Model, ctx: &mut Ctx, facts: Option<&Value>) -> 
         "C10" => c10::run(m, ctx),
         "C14" => c14::run(m, ctx),
         "C15" => c15::run(m, ctx),
+        "C17" => c17::run(m, ctx),
         "C08" => c08::run(m, ctx, loaded.as_ref().unwrap()),
         "C11" => c11::run(m, ctx, loaded.as_ref().unwrap()),
         "C12" => c12::run(m, ctx, loaded.as_ref().unwrap()),
